@@ -1196,11 +1196,38 @@ DLLIMPORT cfg_value_t *cfg_setopt(cfg_t *cfg, cfg_opt_t *opt, const char *value)
 DLLIMPORT int cfg_opt_setmulti(cfg_t *cfg, cfg_opt_t *opt, unsigned int nvalues, char **values)
 {
 	cfg_opt_t old;
+	cfg_value_t oldsimple;
 	unsigned int i;
 
 	if (!opt || !nvalues) {
 		errno = EINVAL;
 		return CFG_FAIL;
+	}
+
+	/* a "simple" option keeps its value in the caller's variable: that
+	 * is what has to come back when the call is refused */
+	memset(&oldsimple, 0, sizeof(oldsimple));
+	if (opt->simple_value.ptr) {
+		switch (opt->type) {
+		case CFGT_INT:
+			oldsimple.number = *opt->simple_value.number;
+			break;
+		case CFGT_FLOAT:
+			oldsimple.fpnumber = *opt->simple_value.fpnumber;
+			break;
+		case CFGT_BOOL:
+			oldsimple.boolean = *opt->simple_value.boolean;
+			break;
+		case CFGT_STR:
+			if (*opt->simple_value.string) {
+				oldsimple.string = strdup(*opt->simple_value.string);
+				if (!oldsimple.string)
+					return CFG_FAIL;
+			}
+			break;
+		default:
+			break;
+		}
 	}
 
 	old = *opt;
@@ -1210,6 +1237,26 @@ DLLIMPORT int cfg_opt_setmulti(cfg_t *cfg, cfg_opt_t *opt, unsigned int nvalues,
 	for (i = 0; i < nvalues; i++) {
 		if (cfg_setopt(cfg, opt, values[i]))
 			continue;
+
+		if (opt->simple_value.ptr) {
+			switch (opt->type) {
+			case CFGT_INT:
+				*opt->simple_value.number = oldsimple.number;
+				break;
+			case CFGT_FLOAT:
+				*opt->simple_value.fpnumber = oldsimple.fpnumber;
+				break;
+			case CFGT_BOOL:
+				*opt->simple_value.boolean = oldsimple.boolean;
+				break;
+			case CFGT_STR:
+				free(*opt->simple_value.string);
+				*opt->simple_value.string = oldsimple.string;
+				break;
+			default:
+				break;
+			}
+		}
 
 		/* ouch, revert: release the new values, keep the annotation */
 		old.comment = opt->comment;
@@ -1227,6 +1274,8 @@ DLLIMPORT int cfg_opt_setmulti(cfg_t *cfg, cfg_opt_t *opt, unsigned int nvalues,
 	old.comment = NULL;	/* the annotation stays with the option */
 	cfg_free_value(&old);
 	opt->flags |= CFGF_MODIFIED;
+	if (opt->simple_value.ptr && opt->type == CFGT_STR)
+		free(oldsimple.string);
 
 	return CFG_SUCCESS;
 }
